@@ -44,6 +44,28 @@ var loopsAllowed = map[string]tabEntry{
 
 var loopsAllowedUsed = map[string]int{}
 
+// fanOutAllowed: the places where a function of the downstream send chain is handed to the
+// fan-out helper (which runs it once per element), per package (a confirmed fan-out moved
+// into a helper of the same package stays the same fan-out).
+var fanOutAllowed = map[string]tabEntry{
+	"queryer":  {1, "MultiOpQueryer.Query: one call per chunk of MaxBatchSize requests: the number of calls is fixed by the configured batch size (C11), each chunk is sent once"},
+	"executor": {1, "DepthExecutor.Execute: one batch per service group of the depth: the groups are the services named by the plan's steps at that depth"},
+}
+
+var fanOutUsed = map[string]int{}
+
+// handsToFanOut: the hoarg edge e hands its function to a helper listed in hofAllowed.
+func (r *Run) handsToFanOut(e *Edge) bool {
+	for _, e2 := range r.P.CG.Out[e.Caller] {
+		if e2.Site == e.Site && (e2.Kind == "static" || e2.Kind == "invoke" || e2.Kind == "dynamic") {
+			if _, ok := hofAllowed[fnName(e2.Callee)]; ok {
+				return true
+			}
+		}
+	}
+	return false
+}
+
 // sendChain computes the functions on call paths from root to a call of the named sink:
 // members of the region reachable from root that contain the sink call or call a member.
 func (r *Run) sendChain(root *ssa.Function, sink string) map[*ssa.Function]bool {
@@ -85,11 +107,19 @@ func (r *Run) sendChain(root *ssa.Function, sink string) map[*ssa.Function]bool 
 
 func ruleMultiplicity(r *Run) {
 	const rule = "R12a"
+	// credits are per run of the rule
+	for _, used := range []map[string]int{loopsAllowedUsed, fanOutUsed} {
+		for k := range used {
+			if strings.HasPrefix(k, r.Property) {
+				delete(used, k)
+			}
+		}
+	}
 	// the send chain: callee → must not be called from inside a loop
 	n := 0
 	for _, rs := range [][2]string{
 		{"queryer.(*MultiOpQueryer).Query", "(*net/http.Client).Do"},
-		{"executor.(*DepthExecutorManager).Execute", "github.com/buildbuildio/pebbles/queryer.Queryer.Query"},
+		{"executor.(ParallelExecutor).Execute", "github.com/buildbuildio/pebbles/queryer.Queryer.Query"},
 	} {
 		root := r.Anchor(rule, rs[0])
 		if root == nil {
@@ -200,6 +230,20 @@ func ruleMultiplicity(r *Run) {
 				if e.Kind == "hoarg" {
 					if once, why := r.hofCallsOnce(e); !once {
 						r.Bad(rule, fnName(e.Caller), "calls "+cn, site, "a step of the downstream send chain is handed to a helper that can run it more than once ("+why+"): the same request is sent again after a failure — a mutation the service already executed is delivered twice")
+						continue
+					}
+					// handed to the fan-out helper: it runs once per ELEMENT, so the number of
+					// sends is the number of elements — the confirmed fan-out points split the
+					// work by plan shape (service groups of a depth) or by the configured batch
+					// size; a further one multiplies the round trips by whatever it ranges over
+					if r.handsToFanOut(e) {
+						fk := shortPkg(topFn(e.Caller).Pkg.Pkg.Path())
+						if ent, ok := fanOutAllowed[fk]; ok && fanOutUsed[r.Property+fk] < ent.N {
+							fanOutUsed[r.Property+fk]++
+							r.Tabled(rule, fnName(e.Caller), "fans out "+cn, site, "fanOutAllowed", ent.Reason)
+						} else {
+							r.Bad(rule, fnName(e.Caller), "fans out "+cn, site, "a step of the downstream send chain is handed to the fan-out helper at a new place: it is run once per element of whatever the helper is given, so one batch for a service at a plan level becomes as many calls as there are elements (pieces of a long list, attempts, …) — the number of round trips follows the size of the result, not the shape of the plan")
+						}
 						continue
 					}
 				}
